@@ -66,6 +66,7 @@ func init() {
 				runG4(c, e)
 				runG5(c, e)
 				runInitConstants(c)
+				runUnmarshalDiscipline(c)
 			}},
 		},
 	})
